@@ -255,6 +255,8 @@ def excel_request(c):
 
 def check(run):
     import genlib
+    genlib.validate_create_tabulation(run, n=run.n(40, 400))
+    import genlib
     genlib.validate_tabulation_objects(run, kinds=("adp",), n=run.n(8, 60))
     genlib.validate_writer(run, "gulp", n=run.n(12, 120))
     run.rule = ("tracer models: GULP (1-4 potentials, nr 2..40, dyadic cutoffs; GULP_PairTabulation, writePotentials('GULP'), potable GULP via Configuration and entry point); "
